@@ -109,7 +109,7 @@ func (c *SCase) GovInv() bool {
 				}
 			}
 		}
-		if t > x.Total || x.PC > 100 || x.SC > 101 || x.Init+x.Total == 0 || x.Init+x.Total > 10000000000 {
+		if t > x.Total || x.PC > 100 || x.SC > 101 || x.Init+x.Total > 10000000000 {
 			return false
 		}
 	}
